@@ -276,8 +276,13 @@ func C19(c *Ctx) {
 			switch {
 			case ssau.IsNilConst(d):
 			case d == mres:
-				// only on ways without a guard: the way must not be chosen after the guard call
-				for _, b := range w.blocks {
+				// only on ways without a guard: the way must not be chosen after the guard call (a way without any
+				// choice is the value as it stands at the mark)
+				chosen := w.blocks
+				if len(chosen) == 0 {
+					chosen = []*ssa.BasicBlock{marks[0].Block()}
+				}
+				for _, b := range chosen {
 					if afterGuard(b, w.calls) {
 						okG = false
 						whyG = append(whyG, "the raw match result is accepted after the guard ran")
